@@ -76,6 +76,9 @@ pub enum Ev {
     /// Encoder::encode returned, reporting these clause ids as conflicting
     #[serde(rename = "encres")]
     EncodeResult(Vec<u32>),
+    /// analyze_unsolvable starts from this (falsified) clause
+    #[serde(rename = "unsolv")]
+    AnalyzeUnsolvable(u32),
 }
 /// A unit of work of the encoder (None = root)
 #[derive(Clone, Debug, Serialize, Deserialize, PartialEq, Eq)]
@@ -293,6 +296,7 @@ pub fn dump_obs(d: &resolvo::verif::VerifDump, core: Vec<u32>) -> Dump {
             VerifEvent::Encode(l) => Ev::Encode(l.iter().map(|&x| if x == u32::MAX { None } else { Some(x) }).collect()),
             VerifEvent::SoftRegister(s) => Ev::SoftRegister(*s),
             VerifEvent::EncodeResult(l) => Ev::EncodeResult(l.clone()),
+            VerifEvent::AnalyzeUnsolvable(c) => Ev::AnalyzeUnsolvable(*c),
             VerifEvent::TaskDone(t) => {
                 use resolvo::verif::VerifTask as T;
                 let so = |x: u32| if x == u32::MAX { None } else { Some(x) };
